@@ -274,14 +274,21 @@ def run_unit(spec_path: str, tier: str, seed: int, kf_omit: set, do_vacuity: boo
             else:
                 keep.append(f)
         failures = keep
-    if (not vr or vr.get("encountered-vir-error") or hard or ("verified" not in vr)) and not gen.NO_E23 and any(x.get("rule") == "E23" for x in g.rewrites):
+    if (not vr or vr.get("encountered-vir-error") or hard or ("verified" not in vr)) and not gen.NO_E23 and any(x.get("rule") in ("E23", "E25") for x in g.rewrites):
         # an E23 closure contract (`res == <closure body>`) is not expressible in spec mode (e.g. a comparison of non-primitive
         # values): second attempt without E23; the closure then stays without contract
+        if not gen.E25_RESULT and any(x.get("rule") == "E25" for x in g.rewrites):
+            gen.E25_RESULT = True      # `map` / `and_then` on a Result
+            try:
+                return run_unit(spec_path, tier, seed, kf_omit, do_vacuity, rlimit, tag, bdir)
+            finally:
+                gen.E25_RESULT = False
         gen.NO_E23 = True
+        was = gen.E25_RESULT; gen.E25_RESULT = False
         try:
             return run_unit(spec_path, tier, seed, kf_omit, do_vacuity, rlimit, tag, bdir)
         finally:
-            gen.NO_E23 = False
+            gen.NO_E23 = False; gen.E25_RESULT = was
     if not vr or vr.get("encountered-vir-error") or hard or ("verified" not in vr):
         R.status = "undecided"
         R.reason = "unsupported construct / compile error: " + (hard[0][:1500] if hard else (raw[:1500] or json.dumps(vr)))
